@@ -1563,6 +1563,15 @@ Proof.
   destruct (m_conf m); [|reflexivity]. destruct (_ =? _)%Z; cbn; apply next_uid_upd_msg'.
 Qed.
 
+(* steps the confirm view does not see, and drops of the message being assembled (channel.close) *)
+Lemma vld_CKN P st st' : vld P st st' -> CKN st st'.
+Proof.
+  intros H. induction H as [s1 Hv|s1 c1 h1 ch1 H IH Hp Hg|s1 s2 H IH Hv].
+  - apply vle_CKN. exact Hv.
+  - eapply CKN_trans; [exact IH|]. eapply CKN_set_chan; [exact Hg|right; reflexivity].
+  - eapply CKN_trans; [exact IH|apply vle_CKN; exact Hv].
+Qed.
+
 Lemma CKN_restart cfg st : CKN st (fst (restart cfg st)).
 Proof. split; [reflexivity|]. intros c h w. unfold cur_of, get_chan, get_conn, restart. cbn. discriminate. Qed.
 
@@ -1585,10 +1594,10 @@ Lemma BC_conn_close st c : BC st -> BC (fst (conn_close cfg fx st c)).
 Proof.
   intros Hb. unfold conn_close. destruct (get_conn st c) as [cn|]; [|exact Hb].
   set (s1 := fold_left _ _ st).
-  assert (H1 : vle st s1) by (subst s1; apply fold_left_preserves; [intros; apply V_channel_close; auto|apply vle_refl]).
+  assert (H1 : BC s1) by (subst s1; eapply BC_ckn; [eapply vld_CKN; apply D_close_fold|exact Hb]).
   clearbody s1.
-  pose proof (V_delete_fold st (negb (fx_delete_checks_first fx))
-                (map fst (filter (fun kv => q_excl (snd kv) && (q_owner (snd kv) =? c)) (queues s1))) s1 [] H1) as Hd.
+  pose proof (V_delete_fold s1 (negb (fx_delete_checks_first fx))
+                (map fst (filter (fun kv => q_excl (snd kv) && (q_owner (snd kv) =? c)) (queues s1))) s1 [] (vle_refl s1)) as Hd.
   destruct (fold_left _ _ (s1, [])) as [s2 e2]. cbn [fst] in *. eapply BC_ckn; [apply CKN_delconn|]. eapply BC_vle; eauto.
 Qed.
 Lemma BC_apply_err st c h r : BC (fst (fst r)) -> BC (fst (apply_err st c h r)).
@@ -1605,7 +1614,7 @@ Lemma BC_handler c h m : l = LMethod c h m -> BC (fst (fst (handle_method cfg fx
 Proof.
   intros El. destruct (confirm_method m) eqn:Hcm.
   - right. exists c, h, m. split; [exact El|]. split; [exact Hcm|apply CKN_refl].
-  - left. eapply CKN_trans; [apply CKN_ensure|]. apply vle_CKN. apply V_handle_method. exact Hcm.
+  - left. eapply CKN_trans; [apply CKN_ensure|]. eapply vld_CKN. apply D_handle_method. exact Hcm.
 Qed.
 
 Theorem BC_step : BC (fst (step cfg fx s l)).
